@@ -82,3 +82,69 @@ Theorem C12_walk_main : forall s es rel,
     let c := mkCase s es rel (Some o) (run i es) in
     exists r, walk12 c (init12 c) (init_snap c) (pc_events c) (pc_trace c) = Some r.
 Proof. exact walk12_main. Qed.
+
+(** * The logic of the liveness half, for every history without received frames
+    (timers, transmit timestamps, BMCA runs, ticks in any order and number).
+
+    C12_silence_settles: from ANY reachable state (any valid history es0), after
+    silent events that contain enough BMCA runs for four announce intervals of
+    every port, every foreign-master list is empty and every multiport block has
+    lapsed (each stored Announce ages by one BMCA interval per run,
+    [ageing_run]); if the instance is not slave-only it is [settled]. *)
+From SV Require Import Port.SilenceC12.
+Theorem C12_silence_settles : forall s es0 es i0 o0 i' stepd,
+  setup_valid s -> Forall event_valid es0 -> Forall event_valid es -> forallb silent_event es = true ->
+  init s = Ok (i0, o0) -> run_state i0 (es0 ++ es) = Some i' ->
+  bmca_interval_dur (i_log_bmca i0) = Ok stepd ->
+  (1 <= count_bmca es)%nat ->
+  (forall pp', In pp' (i_ports i') -> cutoff_age (port_ti pp') <= Z.of_nat (count_bmca es) * stepd) ->
+  Forall (fun pp => p_fml pp = [] /\ p_multiport_disable pp = None) (i_ports i') /\
+  (dd_slave_only (ds_default (i_ds i')) = false -> settled i').
+Proof. exact silence_settles. Qed.
+
+(** C12_settled_step: one silent event in a settled instance.  The instance
+    stays settled; a port either keeps its state, stays SLAVE (exchange state),
+    goes FAULTY -> LISTENING (a late transmit timestamp completing a clean peer
+    delay exchange), or becomes MASTER; a BMCA run makes every port MASTER that
+    is neither FAULTY nor LISTENING and leaves those alone; an announce receipt
+    timeout makes the port MASTER unless it is FAULTY. *)
+Theorem C12_settled_step : forall i e i' o,
+  inst_inv i -> event_valid e -> silent_event e = true -> settled i -> step i e = Ok (i', o) ->
+  settled i' /\ length (i_ports i') = length (i_ports i) /\
+  forall n pp pp', nth_error (i_ports i) n = Some pp -> nth_error (i_ports i') n = Some pp' ->
+    (calm (p_state pp) (p_state pp') \/ p_state pp' = PMaster) /\
+    (e = EvBmca -> p_state pp' = if is_faulty (p_state pp) || is_listening (p_state pp) then p_state pp else PMaster) /\
+    (e = EvAnnounceReceiptTimer n -> is_faulty (p_state pp) = false -> p_state pp' = PMaster).
+Proof. exact settled_step. Qed.
+
+(** C12_settled_run: every silent continuation of a settled instance, of any
+    length: MASTER ports stay MASTER for ever, the set {MASTER, LISTENING,
+    FAULTY} is never left, no port becomes FAULTY.  With C12_walk_main (a
+    LISTENING port has its announce receipt timer armed, finding F22 aside) and
+    the timer theorems above, what remains of the property is the arithmetic of
+    the host's schedule, which the oracle [final_ok] evaluates on traces. *)
+Theorem C12_settled_run : forall es i i',
+  inst_inv i -> Forall event_valid es -> forallb silent_event es = true -> settled i -> run_state i es = Some i' ->
+  settled i' /\ length (i_ports i') = length (i_ports i) /\
+  forall n pp pp', nth_error (i_ports i) n = Some pp -> nth_error (i_ports i') n = Some pp' ->
+    (p_state pp = PMaster -> p_state pp' = PMaster) /\
+    (mlf (p_state pp) -> mlf (p_state pp')) /\
+    (is_faulty (p_state pp') = true -> is_faulty (p_state pp) = true).
+Proof. exact settled_run. Qed.
+
+(** The premises are satisfiable: a port that became SLAVE (9) of a master and
+    then hears nothing more is MASTER (6) after a silent tail with five BMCA runs
+    (four announce intervals), evaluated in the kernel. *)
+From SV Require Import Port.SilenceEx.
+Example C12_silence_nonvacuous :
+  states_after sil_prefix = Some [9] /\ states_after (sil_prefix ++ sil_tail) = Some [6] /\
+  forallb silent_event sil_tail = true /\ count_bmca sil_tail = 5%nat /\
+  match init sil_setup with
+  | Ok (i0, _) =>
+      match run_state i0 (sil_prefix ++ sil_tail), bmca_interval_dur (i_log_bmca i0) with
+      | Some i', Ok stepd => forallb (fun pp => cutoff_age (port_ti pp) <=? 5 * stepd) (i_ports i')
+      | _, _ => false
+      end
+  | Panic _ => false
+  end = true.
+Proof. exact silence_example. Qed.
